@@ -1,4 +1,4 @@
-import StraxModel.Lemmas.MailboxProg
+import StraxModel.Lemmas.MailboxLive
 /-
   C05 — a mailbox delivers every message exactly once, in order, to every subscriber.
 
@@ -55,6 +55,39 @@ theorem sent_is_program_prefix (c : Config) (hv : c.valid = true) (s : Sys) (h :
         | exact Or.inl this.2.1
         | exact Or.inr this
         | (left; rw [this.2.1]; simp)
+
+/-- **no deadlock** (proved for in-order sends): inside the domain (`Config.valid`) and under the liveness
+side conditions `Config.live` — at least one subscriber, `max_messages ≥ 1`, at least one driving subscriber
+in lazy mode, every future completed by some worker, messages sent in number order — every reachable state
+in which some thread has not ended has an enabled thread.  Together with `no_lost_wakeup` this is the
+"no lost wake-up, no capacity deadlock" half of the property for every schedule.
+
+Full statement (not proved): the same with `Config.live` allowing explicitly numbered out-of-order sends
+whose displacement (max over send positions of the number of already-sent messages above the smallest unsent
+number) is below the capacity.  Missing: the counting argument `heap.length ≤ displacement` replacing
+`heap_empty_of_all_blocked`; the model, the correspondence check and the oracle do cover such programs.
+Also not proved: a termination measure (every schedule is finite); with it `stuck_is_success` below would
+read "every run ends, and ends with exact delivery". -/
+theorem deadlock_free_partial (c : Config) (hv : c.valid = true) (hl : c.live = true) (s : Sys) (h : Reachable c s)
+    (hnf : s.final = false) : ∃ t, (step s t).isSome = true := by
+  apply Classical.byContradiction
+  intro hcon
+  have hstuck : ∀ t, step s t = none := by
+    intro t
+    cases hst : step s t with
+    | none => rfl
+    | some s' => exact absurd ⟨t, by simp [hst]⟩ hcon
+  rw [deadlock_free_core hv hl h hstuck] at hnf
+  cases hnf
+
+/-- every run that cannot be extended is a complete, successful one: all threads have ended and every
+subscriber has been handed exactly the program's messages in number order -/
+theorem stuck_is_success (c : Config) (hv : c.valid = true) (hl : c.live = true) (s : Sys) (h : Reachable c s)
+    (hstuck : ∀ t, step s t = none) :
+    s.final = true ∧ ∀ (i : Nat) (r : Reader), s.readers[i]? = some r →
+      r.got = inOrder (numbered c.prog 0) c.prog.length ∧ ∃ rest, r.pc = .done rest := by
+  have hf := deadlock_free_core hv hl h hstuck
+  exact ⟨hf, fun i r hr => delivery_exact_core hv h hf i r hr⟩
 
 /-- every number below `have_read[i] + 1` has really been sent (so `inOrder` skips nothing) -/
 theorem delivery_no_gap (c : Config) (s : Sys) (h : Reachable c s) (i : Nat) (sub : Sub)
@@ -125,7 +158,17 @@ def exCfg2 : Config :=
   { cap := some 2, lazy := false, gateRule := .hasMsg, drive := [true],
     prog := [.item (some 1) (.plain 10), .item (some 0) (.fut 0 20)], workers := [[0]], killers := [] }
 
-example : exCfg.valid = true ∧ exCfg2.valid = true := by decide
+example : exCfg.valid = true ∧ exCfg2.valid = true ∧ exCfg.live = true := by decide
+
+/-- `exCfg2` sends 1 before 0: valid, but outside `live` (in-order numbering) — the part of `deadlock_free` not proved -/
+example : exCfg2.live = false := by decide
+
+/-- a lazy configuration with a non-driving subscriber next to a driver satisfies both hypotheses -/
+def exCfg3 : Config :=
+  { cap := some 1, lazy := true, gateRule := .hasMsg, drive := [false, true],
+    prog := [.item none (.plain 10), .item none (.fut 3 20)], workers := [[], [3]], killers := [] }
+
+example : exCfg3.valid = true ∧ exCfg3.live = true := by decide
 
 /-- `delivery_exact` is not vacuous: a complete run of `exCfg2` (all threads ended); the subscriber got the
 future's message (number 0) before the plain one (number 1) -/
